@@ -43,14 +43,18 @@ struct AnyObj {
 
 struct FromImage {};
 
+// allocator instance of the object whose operation is running (for adapters that build temporary operands)
+inline int& cur_inst() { static int i = 1; return i; }
+
 // F: struct with  S (sketch type), make(inst, w) -> S, update(S&, w), merge(S&, S&, bool), query(S&, w),
 //    image(const S&) -> std::string, deser(const std::string&, inst) -> S, trim(S&), reset(S&)
 template<class F> struct ObjT : AnyObj {
   typename F::S s;
-  ObjT(int inst, const W& w) : s(F::make(inst, w)) {}
-  ObjT(const ObjT& o) : s(o.s) {}
-  ObjT(ObjT&& o) : s(std::move(o.s)) {}
-  ObjT(FromImage, const std::string& img, int inst) : s(F::deser(img, inst)) {}
+  int inst;
+  ObjT(int inst_, const W& w) : s(F::make(inst_, w)), inst(inst_) {}
+  ObjT(const ObjT& o) : s(o.s), inst(o.inst) {}
+  ObjT(ObjT&& o) : s(std::move(o.s)), inst(o.inst) {}
+  ObjT(FromImage, const std::string& img, int inst_) : s(F::deser(img, inst_)), inst(inst_) {}
   static const ObjT& same(const AnyObj& o) {
     const ObjT* p = dynamic_cast<const ObjT*>(&o);
     if (!p) throw BadOp("objects of different families");
@@ -58,9 +62,9 @@ template<class F> struct ObjT : AnyObj {
   }
   AnyObj* copy() const override { return new ObjT(*this); }
   AnyObj* move_new() override { return new ObjT(std::move(*this)); }
-  void copy_assign(const AnyObj& o) override { s = same(o).s; }
+  void copy_assign(const AnyObj& o) override { F::cassign(s, same(o).s); }
   void move_assign(AnyObj& o) override { s = std::move(const_cast<ObjT&>(same(o)).s); }
-  void update(const W& w) override { CoinSource cs(w.size() > 4 ? w[4] : "", w.size()); F::update(s, w); }
+  void update(const W& w) override { CoinSource cs(w.size() > 4 ? w[4] : "", w.size()); cur_inst() = inst; F::update(s, w); }
   void merge(AnyObj& o, bool mv) override { F::merge(s, const_cast<ObjT&>(same(o)).s, mv); }
   void query(const W& w) override { F::query(s, w); }
   std::string image() const override { return F::image(s); }
@@ -81,6 +85,7 @@ template<class F> struct ObjT : AnyObj {
 struct NoTrimReset {
   template<class S> static void trim(S&) { throw BadOp("unsupported"); }
   template<class S> static void reset(S&) { throw BadOp("unsupported"); }
+  template<class S> static void cassign(S& a, const S& b) { a = b; }
 };
 
 } // namespace life
